@@ -2,9 +2,8 @@
 
    [readlink_after_symlink]: when Symlink(t, n) succeeds, Readlink(n) on the resulting state returns
    Clean(t) - by a frame argument on the walk: the walk to [n] in the new heap makes the same lookups
-   as in the old one up to the single lookup that failed there, which now finds the new link.  (The
-   implementation tests its link budget BEFORE the no-follow test of the final component, so a path
-   that already crossed 40 links answers ELOOP: the second disjunct.) *)
+   as in the old one up to the single lookup that failed there, which now finds the new link (a final
+   link that is not followed does not count against the link limit). *)
 From Avfs Require Import Base PathModel PathSpec PathProofs PathCleanProofs PathIterProofs.
 From Avfs Require Import MemFS MemFile World Posix WalkBridge WalkSym WalkBudget.
 
@@ -111,8 +110,8 @@ Section Frame.
         destruct (check_permission m OpenLookup (v_user v)); [|subst r; discriminate He].
         apply (IH vol n pi1 sl r); auto. unfold node_is_dir. rewrite Hgn. reflexivity.
       + rewrite Hos in Hr. destruct (pi_is_last pi1); subst r; discriminate He.
-      + destruct (Nat.ltb slCountMax (S sl)); [subst r; discriminate He|].
-        destruct (pi_is_last pi1 && slmode_eqb SlLstat SlLstat) eqn:E1; [subst r; discriminate He|].
+      + destruct (pi_is_last pi1 && slmode_eqb SlLstat SlLstat) eqn:E1; [subst r; discriminate He|].
+        destruct (Nat.ltb slCountMax (S sl)); [subst r; discriminate He|].
         cbn [slmode_eqb] in Hr. rewrite andb_false_r in Hr.
         destruct (pi_replace_part (v_os v) pi1 t) as [reset pi2].
         apply (IH vol (if reset then vol else p0) pi2 (S sl) r); auto. destruct reset; assumption.
@@ -123,9 +122,8 @@ Section Frame.
     node_is_dir h vol = true -> node_is_dir h p0 = true ->
     search_loop fuel h v SlLstat vol p0 pi sl None = r ->
     sr_err r = ENoSuchFile -> sr_parent r = Some parent -> pi_part (sr_pi r) = name -> pi_is_last (sr_pi r) = true ->
-    exists e, (e = EFileExists \/ e = ETooManySymlinks) /\
-      search_loop fuel h' v SlLstat vol p0 pi sl None
-      = {| sr_parent := Some parent; sr_child := Some c; sr_pi := sr_pi r; sr_err := e |}.
+    search_loop fuel h' v SlLstat vol p0 pi sl None
+    = {| sr_parent := Some parent; sr_child := Some c; sr_pi := sr_pi r; sr_err := EFileExists |}.
   Proof.
     induction fuel as [|fuel IH]; intros vol p0 pi sl r Hvd Hpd Hr He Hp Hn Hlast.
     - subst r. discriminate He.
@@ -154,16 +152,13 @@ Section Frame.
              destruct (check_permission m OpenLookup (v_user v)); [|subst r; discriminate He].
              apply (IH vol n pi1 sl r); auto. unfold node_is_dir. rewrite Hgn. reflexivity.
           -- rewrite Hos in Hr. destruct (pi_is_last pi1); subst r; discriminate He.
-          -- destruct (Nat.ltb slCountMax (S sl)); [subst r; discriminate He|].
-             destruct (pi_is_last pi1 && slmode_eqb SlLstat SlLstat); [subst r; discriminate He|].
+          -- destruct (pi_is_last pi1 && slmode_eqb SlLstat SlLstat); [subst r; discriminate He|].
+             destruct (Nat.ltb slCountMax (S sl)); [subst r; discriminate He|].
              cbn [slmode_eqb] in Hr |- *. rewrite andb_false_r in Hr |- *.
              destruct (pi_replace_part (v_os v) pi1 t) as [reset pi2].
              apply (IH vol (if reset then vol else p0) pi2 (S sl) r); auto. destruct reset; assumption.
       + subst r. cbn [sr_err sr_parent sr_pi out_pi] in *. injection Hp as ->.
-        rewrite Hn, frame_children_new, frame_get_new, Hlast. cbn [slmode_eqb andb].
-        destruct (Nat.ltb slCountMax (S sl));
-          [exists ETooManySymlinks; split; [right; reflexivity|reflexivity]
-          |exists EFileExists; split; [left; reflexivity|reflexivity]].
+        rewrite Hn, frame_children_new, frame_get_new, Hlast. cbn [slmode_eqb andb]. reflexivity.
   Qed.
 End Frame.
 
@@ -177,7 +172,7 @@ Proof. intros Hos. unfold search_node. rewrite Hos. reflexivity. Qed.
 Theorem readlink_after_symlink (s s' : fsys) (v : view) (t n : str) :
   v_os v = Linux -> ptr_valid (f_heap s) -> node_is_dir (f_heap s) (v_root v) = true ->
   symlink s v t n = (s', ROk) ->
-  readlink s' v n = RStr (clean Linux t) \/ readlink s' v n = RFail ETooManySymlinks.
+  readlink s' v n = RStr (clean Linux t).
 Proof.
   intros Hos Hpv Hrd. unfold symlink, readlink. rewrite (search_node_linux s v n SlLstat Hos).
   set (pi := pi_new Linux (abs Linux (v_cwd v) n)).
@@ -196,12 +191,10 @@ Proof.
   destruct (node_is_dir_get _ _ Hpd) as (ch0 & m0 & Hpar).
   unfold create_symlink. cbn [f_heap].
   set (mx := {| m_mode := N.lor MODE_SYMLINK 511; m_uid := us_uid (v_user v); m_gid := us_gid (v_user v) |}).
-  destruct (search_frame (f_heap s) v parent (pi_part (sr_pi r)) (clean Linux t) mx ch0 m0 Hpv Hpar Hos
-              SEARCH_FUEL (v_root v) (v_root v) pi 0 r Hrd Hrd Er He Hp eq_refl Hc2) as (e & He' & Hfr).
-  rewrite Hfr. cbn [sr_err sr_child].
-  destruct He' as [->| ->]; cbn [is_file_exists negb].
-  - left. rewrite (frame_get_new (f_heap s) parent (pi_part (sr_pi r)) (clean Linux t) mx ch0 m0 Hpar). reflexivity.
-  - right. reflexivity.
+  rewrite (search_frame (f_heap s) v parent (pi_part (sr_pi r)) (clean Linux t) mx ch0 m0 Hpv Hpar Hos
+             SEARCH_FUEL (v_root v) (v_root v) pi 0 r Hrd Hrd Er He Hp eq_refl Hc2).
+  cbn [sr_err sr_child is_file_exists negb].
+  rewrite (frame_get_new (f_heap s) parent (pi_part (sr_pi r)) (clean Linux t) mx ch0 m0 Hpar). reflexivity.
 Qed.
 
 (* ---- the calls that act on the link itself ------------------------------------------------------ *)
@@ -253,15 +246,13 @@ Theorem nofollow_final (s : fsys) (sv : sview) (cs : list str) (par n : nat) (na
   klookup s sv false false (abs_path cs) = WNode par LNorm name n -> get h n = Some (NSym t m) ->
   sr_err (search_node s v (abs_path cs) SlLstat) <> EFuel ->
   let r := search_node s v (abs_path cs) SlLstat in
-  sr_child r = Some n /\ sr_parent r = Some par /\
-  ((sr_err r = EFileExists /\ pi_part (sr_pi r) = name) \/ sr_err r = ETooManySymlinks).
+  sr_err r = EFileExists /\ sr_child r = Some n /\ sr_parent r = Some par /\ pi_part (sr_pi r) = name.
 Proof.
   intros v h Hos Hwf Hlc Hrd Hg HK Hgn Hnf r.
   pose proof (sym_bridge_lookup s sv SlLstat cs Hos Hwf Hlc Hrd Hg) as H. cbv zeta in H.
   change (follow_of SlLstat) with false in H. rewrite HK in H.
-  destruct (H ltac:(discriminate) Hnf) as [B|(_ & B1 & par' & name' & n' & t' & m' & B2 & _ & B3 & B4)].
-  - cbn [walk_rel] in B. destruct B as (H1 & H2 & _ & _ & _ & H4). destruct (H4 eq_refl) as (H5 & H6).
-    destruct (at_name_views _ _ _ _ _ _ (H6 eq_refl)) as (H7 & _).
-    split; [exact H2|]. split; [exact H5|]. left. split; [exact H1|exact H7].
-  - injection B2 as <- <- <-. split; [exact B3|]. split; [exact B4|]. right. exact B1.
+  specialize (H ltac:(discriminate) Hnf). cbn [walk_rel] in H.
+  destruct H as (H1 & H2 & _ & _ & _ & H4). destruct (H4 eq_refl) as (H5 & H6).
+  destruct (at_name_views _ _ _ _ _ _ (H6 eq_refl)) as (H7 & _).
+  split; [exact H1|]. split; [exact H2|]. split; [exact H5|exact H7].
 Qed.
